@@ -35,6 +35,12 @@ let run op args =
   | "norm", [p] -> hex (normpath p)
   | "abs", [c; p] -> hex (abs_path c p)
   | "rel", [t; b] -> hex (relpath no_canon [n_of_int 47] t b)
+  | "relc", (cwd :: t :: b :: tbl) ->
+      (* tbl: k1 v1 k2 v2 ... canonicalize() table; a missing key = NotFound *)
+      let rec pairs = function k :: v :: r -> (k, v) :: pairs r | _ -> [] in
+      let tb = pairs tbl in
+      let canon d = List.assoc_opt d tb in
+      hex (relpath canon cwd t b)
   | "pdf", [p] ->
       String.concat ";" (List.map (fun d ->
         Printf.sprintf "%s,%s,%s,%s,%s" (hex d.do_dir) (hex d.do_file)
